@@ -1,6 +1,7 @@
 package rules
 
 import (
+	"go/types"
 	"fmt"
 	"go/token"
 	"strings"
@@ -535,6 +536,54 @@ func doneTest(c *an.Ctx, s *sched, rule string) {
 	// done==true must leave the loop
 	leaves := ok1 && ((tb && !contOnTrue) || (!tb && contOnTrue))
 	c.Check(leaves, rule, an.Short(of)+":loop-exit", call.Pos(), "the scheduling loop ends when the done test is true and continues otherwise", "the scheduling loop does not end exactly when the done test is true")
+	// Schedule returns only through that loop — or, before it, because the done test holds vacuously (a graph
+	// without stages) or was evaluated: a return for any other reason (the graph "has been scheduled already")
+	// reports a pipeline as over while its stages are still waiting or running
+	for _, ret := range an.Returns(of) {
+		if s.outer.Header.Dominates(ret.Block()) {
+			continue
+		}
+		vacuous := false
+		for _, g := range an.Guards(ret.Block()) {
+			// len(<nodes of the graph>) == 0
+			if bo, ok := g.Cond.(*ssa.BinOp); ok {
+				for _, side := range []ssa.Value{bo.X, bo.Y} {
+					lc, ok := side.(*ssa.Call)
+					if !ok {
+						continue
+					}
+					if b, isB := lc.Call.Value.(*ssa.Builtin); !isB || b.Name() != "len" {
+						continue
+					}
+					if _, ok := allNodesOf(c.P, lc.Call.Args[0], 2); !ok {
+						continue
+					}
+					other := bo.Y
+					if side == bo.Y {
+						other = bo.X
+					}
+					k, isC := an.ConstInt(other)
+					if !isC {
+						continue
+					}
+					switch {
+					case bo.Op == token.EQL && k == 0 && g.Outcome, bo.Op == token.NEQ && k == 0 && !g.Outcome,
+						bo.Op == token.LSS && k == 1 && g.Outcome && side == bo.X, bo.Op == token.GTR && k == 0 && !g.Outcome && side == bo.X:
+						vacuous = true
+					}
+				}
+			}
+			// the done test itself
+			if dc, ok := g.Cond.(*ssa.Call); ok && g.Outcome {
+				for _, callee := range c.P.Callees(&dc.Call) {
+					if callee == d {
+						vacuous = true
+					}
+				}
+			}
+		}
+		c.Check(vacuous, rule, an.Short(of)+":return-when-done", ret.Pos(), "an early return is taken only when the graph has no stage left to run", "Schedule can return without having gone through the scheduling loop and without the done test holding: the pipeline is reported as over (and its including stage as Done) while stages of it are still waiting or running")
+	}
 	// table of the done test over one stage
 	var loop *an.Loop
 	for _, l := range an.Loops(d) {
@@ -549,7 +598,10 @@ func doneTest(c *an.Ctx, s *sched, rule string) {
 	var table []string
 	for _, stv := range s.statusDomain() {
 		stv := stv
-		ex := &an.Explorer{P: c.P, NoReturn: noReturn}
+		// (a predicate on the status — stage.ReadStatus().pending() — is explored in place)
+		ex := &an.Explorer{P: c.P, NoReturn: noReturn, MaxDepth: 2, Inline: func(g *ssa.Function) bool {
+			return an.Outer(g).Pkg == d.Pkg && g != d && an.Short(g) != fnReadStatus && an.Short(g) != fnUpdateStatus && len(g.Blocks) <= 6
+		}}
 		loop.Bound(ex)
 		ex.Atom = func(v ssa.Value) (an.AVal, bool) {
 			if call, ok := v.(*ssa.Call); ok {
@@ -592,7 +644,15 @@ func doneTest(c *an.Ctx, s *sched, rule string) {
 	}
 	op := loop.RangeOperand()
 	okRange := false
-	if graphs, ok := allNodesOf(c.P, op, 2); ok {
+	// (the done test may be handed the graph, or the graph's node map itself)
+	nodesParam := -1
+	for i, prm := range d.Params {
+		if _, isMap := prm.Type().Underlying().(*types.Map); isMap && op != nil && an.SameValue(op, prm) {
+			nodesParam = i
+			okRange = true
+		}
+	}
+	if graphs, ok := allNodesOf(c.P, op, 2); ok && nodesParam < 0 {
 		okRange = true
 		for _, g := range graphs {
 			isParam := false
@@ -612,6 +672,16 @@ func doneTest(c *an.Ctx, s *sched, rule string) {
 		for _, a := range call.Call.Args {
 			if an.SameValue(a, s.schedule.Params[1]) {
 				same = true
+			}
+		}
+		if nodesParam >= 0 && nodesParam < len(call.Call.Args) {
+			if graphs, ok := allNodesOf(c.P, call.Call.Args[nodesParam], 2); ok && len(graphs) > 0 {
+				same = true
+				for _, g := range graphs {
+					if !an.SameValue(g, s.schedule.Params[1]) {
+						same = false
+					}
+				}
 			}
 		}
 		c.Check(same, rule, an.Short(s.launchFn)+":done-graph", call.Pos(), "done test is applied to the graph being scheduled", "done test is applied to a different graph")
